@@ -153,6 +153,15 @@ EXTRA4 = {
 }
 # additions made during the fifth round (untouched clauses of the statements, slips far from the obvious path)
 EXTRA5 = {
+ "C11": " TestC11Stalled: writes to the old stream are stuck (its peer takes no bytes) when the session's stream is reopened; notifications and server requests sent afterwards return and arrive on the new stream without waiting for the stuck write.",
+ "C12": " Tool versions are built from one struct type plus a parameter of their own (listed with exactly those parameters); resources come with single- and multi-content handlers; prompt / resource handlers take a moment and some register further entries while they serve; every request and registration must return.",
+ "C13": " Servers may have only some of the three list filters configured (the others list everything).",
+ "C14": " Tool results that cannot be encoded are part of the registrations (answered alike on every transport).",
+ "C16": " Resources are registered with single- and multi-content handlers alternately.",
+ "C17": " End to end, every observed wait is compared with the configured sequence, and error statuses carry Retry-After headers (seconds, dates, garbage).",
+ "C18": " The type grammar adds outer fields that carry the JSON name of a promoted field; the typed input struct declares schema defaults.",
+ "C19": " Configured paths include ones that are not in path.Clean form (trailing slash, double slash, dot segment, escaped characters).",
+ "C20": " The client workload terminates the session and closes the client while three goroutines still call; HTTP clients may have a retry option with a third of the calls losing their connection once.",
  "C01": " One call in five carries no arguments at all (answered from no arguments).",
  "C02": " One string in twelve is a word the protocol itself uses or a printf verb (error, result, null, \"error\", 100% %d ...); JSON trees use such keys and values too; results without content items are returned without a Content slice.",
  "C04": " Every earlier listening stream of a session is followed to its end at DELETE; the server options are given in rotated orders.",
